@@ -4,11 +4,17 @@
    (add_new_tracks, get_new_track_id, update_tracks, the queues) and
    utils.py (greedy_matching modelled, hungarian_matching = oracle).
 
-   Definitions only, no proofs.  The model is FAITHFUL TO THE CODE AS IT IS,
-   including three defects (finding F4), each behind a boolean switch so that
-   the behaviour of the repaired code is modelled too:
+   Definitions only, no proofs.  The model is faithful to the PINNED tree,
+   including three defects (finding F4), each behind a boolean switch; the
+   CURRENT tree (/repo HEAD) has all three repaired (fix commits 0429c9b,
+   7f6adbc, 141de51: switches true; detected by the harness on the corpus
+   witnesses).  NOTE: the last branch of `step` (the matcher returned no pair:
+   nothing happens) is the behaviour BEFORE afd312c; the current code calls
+   add_new_tracks there — modelled by TrackerX.xstep with fix_iv = true.
+   C09/LemmasR.v (`xstep_room`) proves the two agree on every call that does not
+   take that branch with a detection above the threshold (`iv_branch`).
 
-     fix_i   = false : the guard of update_tracks is
+     fix_i   = false : (pinned tree) the guard of update_tracks is
                        `np.any(row_inds) and np.any(col_inds)`  (true iff some
                        matched row index AND some matched column index is
                        non-zero), so a match  row 0 <-> track 0  alone is ignored;
